@@ -201,8 +201,9 @@ def model_from_tissue(t, nint, seed, coord_scale=1.0, gaps=True, styles=("densit
     def tv():
         return tissue_vids[int(rng.integers(0, len(tissue_vids)))]
 
+    kind0 = int(rng.integers(0, 5))
     for o in range(orphans):
-        kind = int(rng.integers(0, 5))
+        kind = (kind0 + o) % 5           # consecutive kinds: several unattached structures are of different kinds
         a = new_vertex()
         if kind == 0:          # free edge between two unattached vertices
             new_edge(a, new_vertex())
